@@ -8,12 +8,14 @@ MANIFEST = {
     "category": "proof",
     "technique": 'Lean 4 proof (post-order trace invariant over the driver model) + compiled-parser correspondence',
     "text": 'actions_postorder_once: on every sentence every run returns the tree shaped like the unique derivation tree and the action trace is exactly its post-order production list (each action once, post-order, children in rhs order by Forest.WF). Default actions/`<>`/bindings (lowering) are tied by compiled parsers whose actions render their children and log their execution order, compared with the model on both code generators.',
-    "note": "User action code is not interpreted (values are free terms); the lowering pass (action_fn, analyze_expr) is covered by correspondence of compiled parsers and by C14's emitted-code tie, not by a theorem.",
+    "note": "User action code is not interpreted (values are free terms); the lowering pass is modelled (Model/Lower.lean; Props/C02Lower: default_action_spec, angle_subst_spec, patterns_spec, analyze_expr_spec) and tied by stage_dump(tyinfer) -> model -> stage_dump(lower) plus a compiled value leg.",
 }
 
 
 def run(ctx):
     lrfamily.obligations(ctx, MODULE, THEOREMS)
+    from checks import lowerpart
+    lowerpart.run_lower_part(ctx)
     lrfamily.driver_layer(ctx, "C02")
     lrfamily.compiled_layer(ctx, "C02")
     ctx.coverage.setdefault("trusted_base", []).extend(lrfamily.TRUST_LR)
